@@ -349,7 +349,7 @@ pub fn replay_c19(case: serde_json::Value) -> R<CaseMeta> {
 // =============================================================================================
 // C10
 
-pub const C10_RULE: &str = "damaged log: generated histories (String keys incl. a 9000-byte key; put/remove/remove_range/optional explicit checkpoint; N in {1,2,3,4,100}) are run and closed cleanly; the un-checkpointed records are located with the independent reader; then (i) the concatenated log is TRUNCATED at byte offsets of the un-checkpointed region (all offsets within 50 bytes of a record boundary and every 5th elsewhere in quick, ALL offsets in thorough; cutting inside segment i also removes segments >i) and (ii) bytes of the checksum and payload fields of every un-checkpointed record are ALTERED (^0x01, ^0x80, =0x00/0xFF; every byte for records <=300 bytes, every 7th beyond in quick; all in thorough). Oracle: Cas::open never panics; Err is accepted; Ok => recovered key->{hash,size} equals the model after the longest undamaged prefix. evaluations = opens of damaged copies; non-trivial = damage inside a record that is not the last, inside a multi-key Remove record, or in a non-last segment; distinct by (history, damage)";
+pub const C10_RULE: &str = "damaged log: generated histories (String keys incl. a 9000-byte key; put/remove/remove_range/optional explicit checkpoint; N in {1,2,3,4,100}) are run and closed cleanly; the un-checkpointed records are located with the independent reader; then (i) the concatenated log is TRUNCATED at byte offsets of the un-checkpointed region (all offsets within 50 bytes of a record boundary and every 5th elsewhere in quick, ALL offsets in thorough; cutting inside segment i also removes segments >i) and (ii) bytes of the checksum and payload fields of every un-checkpointed record are ALTERED (^0x01, ^0x80, =0x00/0xFF; every byte for records <=300 bytes, every 7th beyond in quick; all in thorough). A second part lays the records of a history out again as segments of N in {1,2,3,4} records with a snapshot at a generated version (the state of a store whose rollover checkpoints were not persisted), so the un-checkpointed tail spans several sealed segments, and applies the same damage. Oracle: Cas::open never panics; Err is accepted; Ok => recovered key->{hash,size} equals the model after the longest undamaged prefix. evaluations = opens of damaged copies; non-trivial = damage inside a record that is not the last, inside a multi-key Remove record, or in a non-last segment; distinct by (history, damage)";
 
 #[derive(Clone, Debug, Serialize, Deserialize)]
 pub struct C10Case {
@@ -358,6 +358,12 @@ pub struct C10Case {
     pub ops: Vec<(u8, u8, u8)>,
     /// restrict to one damage (replay of a shrunk failure)
     pub only: Option<C10Damage>,
+    /// re-segment the log: the history runs with one huge segment and no checkpoint; its records are
+    /// then laid out as segments of `n` records with a snapshot at version `snap_at` (capped), which
+    /// is the state a store is in when rollover checkpoints did not get persisted: the
+    /// un-checkpointed tail spans several segments
+    #[serde(default)]
+    pub resegment: Option<u8>,
 }
 
 #[derive(Clone, Debug, Serialize, Deserialize, PartialEq)]
@@ -378,9 +384,13 @@ fn c10_run(case: &C10Case, thorough: bool) -> R<CaseMeta> {
     let keys = c10_keys();
     let mut m = CaseMeta::default();
     let h = hash_json(&(&case.n, &case.ops));
+    let run_n = if case.resegment.is_some() { 1_000_000 } else { case.n };
     {
-        let cas = Cas::<String>::open(&db, cfg_n(case.n, false)).map_err(|e| Fail::new("open-err", format!("{e:?}")))?;
+        let cas = Cas::<String>::open(&db, cfg_n(run_n, false)).map_err(|e| Fail::new("open-err", format!("{e:?}")))?;
         for (kind, k, c) in &case.ops {
+            if case.resegment.is_some() && kind % 4 == 3 {
+                continue;
+            }
             let key = keys[(*k as usize).min(keys.len() - 1)].clone();
             let r: Result<(), LibError> = (|| {
                 match kind % 4 {
@@ -404,10 +414,75 @@ fn c10_run(case: &C10Case, thorough: bool) -> R<CaseMeta> {
             }
         }
     }
+    let db = if let Some(snap_at) = case.resegment {
+        // lay the records out again with segments of case.n records and a snapshot at snap_at
+        let d0 = match ondisk::read_disk(&db) {
+            Ok(d) => d,
+            Err(e) => fail!("damaged-log/base-malformed", "cleanly closed store is rejected by the independent reader: {e}"),
+        };
+        let recs: Vec<ondisk::Rec> = d0.all_records().cloned().collect();
+        if recs.is_empty() || d0.snap.is_some() {
+            m.discarded = true;
+            return Ok(m);
+        }
+        let n2 = case.n.max(1);
+        let sv = (snap_at as u64).min(recs.len() as u64 - 1);
+        let db2 = scratch.path.join("reseg");
+        std::fs::create_dir_all(&db2).expect("harness: mkdir");
+        std::fs::write(db2.join("db_settings.json"), format!("{{\"version\":4,\"dir_tree_is_pre_created\":false,\"num_ops_per_wal\":{n2}}}")).expect("harness: write");
+        if sv > 0 {
+            let mut st = ondisk::State::new();
+            for r in recs.iter().filter(|r| r.version <= sv) {
+                ondisk::apply(&mut st, &r.op);
+            }
+            let entries: Vec<(Vec<u8>, [u8; 32], u64)> = st.into_iter().map(|(k, (h, z))| (k, h, z)).collect();
+            std::fs::write(db2.join("index"), ondisk::encode_snapshot(sv, &entries)).expect("harness: write");
+        }
+        // pruning keeps the segment that contains the snapshot version
+        let first_seg = if sv == 0 { 0 } else { (sv - 1) / n2 };
+        let last_seg = (recs.last().unwrap().version - 1) / n2;
+        for seg in first_seg..=last_seg {
+            let mut bytes = Vec::new();
+            for r in recs.iter().filter(|r| (r.version - 1) / n2 == seg) {
+                bytes.extend_from_slice(&ondisk::encode_record(r.version, &r.payload));
+            }
+            if seg != last_seg {
+                bytes.extend_from_slice(&[0u8; ondisk::HDR]);
+            }
+            std::fs::write(db2.join(format!("{seg}_index.wal")), bytes).expect("harness: write");
+        }
+        m.class("resegmented_log");
+        db2
+    } else {
+        db
+    };
     let disk = match ondisk::read_disk(&db) {
         Ok(d) => d,
         Err(e) => fail!("damaged-log/base-malformed", "cleanly closed store is rejected by the independent reader: {e}"),
     };
+    if case.resegment.is_some() {
+        // sanity: the undamaged re-segmented store must open and show the full history
+        let mut full = ondisk::State::new();
+        if let Some(sn) = &disk.snap {
+            for (k, hh, z) in &sn.entries {
+                full.insert(k.clone(), (*hh, *z));
+            }
+        }
+        for r in disk.all_records().filter(|r| r.version > disk.snap_version()) {
+            ondisk::apply(&mut full, &r.op);
+        }
+        let chk = scratch.path.join("reseg-check");
+        copy_tree(&db, &chk);
+        match Cas::<String>::open(&chk, cfg_n(case.n, false)) {
+            Ok(cas) => {
+                let got: ondisk::State = cas.read_index_state().iter().map(|(k, i)| (k.as_bytes().to_vec(), (*i.blob_hash.as_bytes(), i.blob_size))).collect();
+                if got != full {
+                    fail!("damaged-log/undamaged-resegmented-log-misread", "a well-formed multi-segment log with an un-checkpointed tail opens with {} keys, the log says {}", got.len(), full.len());
+                }
+            }
+            Err(e) => fail!(format!("damaged-log/undamaged-resegmented-log-rejected/{}", err_path(&e)), "a well-formed multi-segment log is rejected: {e:?}"),
+        }
+    }
     let sv = disk.snap_version();
     // base files
     let settings = std::fs::read(db.join("db_settings.json")).expect("harness: settings");
@@ -545,9 +620,21 @@ pub fn run_c10(ctx: &Ctx, acc: &Mutex<Acc>) -> Option<Violation> {
             prop_oneof![2 => Just(1u64), 2 => Just(2u64), 2 => Just(3u64), 1 => Just(4u64), 3 => Just(100u64)],
             vec((prop_oneof![6 => Just(0u8), 2 => Just(1u8), 2 => Just(2u8), 1 => Just(3u8)], prop_oneof![8 => 0u8..4, 1 => Just(4u8), 1 => Just(5u8)], 0u8..3), 2..14),
         )
-            .prop_map(|(n, ops)| C10Case { n, ops, only: None })
+            .prop_map(|(n, ops)| C10Case { n, ops, only: None, resegment: None })
     };
-    campaign(ctx, acc, "truncate-and-alter", "C10", cases, 40, |_| strat(), move |c| c10_run(c, thorough))
+    if let Some(v) = campaign(ctx, acc, "truncate-and-alter", "C10", cases, 40, |_| strat(), move |c| c10_run(c, thorough)) {
+        return Some(v);
+    }
+    // multi-segment un-checkpointed tails (re-segmented logs)
+    let strat2 = || {
+        (
+            prop_oneof![Just(1u64), Just(2u64), Just(3u64), Just(4u64)],
+            vec((prop_oneof![6 => Just(0u8), 2 => Just(1u8), 2 => Just(2u8)], prop_oneof![8 => 0u8..4, 1 => Just(5u8)], 0u8..3), 3..12),
+            0u8..8,
+        )
+            .prop_map(|(n, ops, snap)| C10Case { n, ops, only: None, resegment: Some(snap) })
+    };
+    campaign(ctx, acc, "resegmented-multi-segment-tail", "C10", cases, 40, |_| strat2(), move |c| c10_run(c, thorough))
 }
 
 pub fn replay_c10(case: serde_json::Value) -> R<CaseMeta> {
